@@ -337,4 +337,112 @@ theorem launch_ok_of_ok (w : World) (r : Run) (c c' : Nat) (h : ∃ l, launch w 
         | none => simp [h1, hloc] at h
         | some loc => exact ⟨_, rfl⟩
 
+/-! ### the scanner accepts exactly written forms of well-formed token lists -/
+
+/-- what the scanner has consumed of an unfinished token -/
+def St.consumed : St → Str
+  | .text => []
+  | .pct => ['%']
+  | .key acc => '%' :: '(' :: acc.reverse
+  | .close n => '%' :: '(' :: n ++ [')']
+
+def St.good : St → Prop
+  | .key acc => ')' ∉ acc
+  | .close n => ')' ∉ n
+  | _ => True
+
+theorem scan_sound (s : Str) : ∀ (st : St) (ts : List Tok), st.good → scan st s = some ts →
+    st.consumed ++ s = unparse ts ∧ ∀ t ∈ ts, t.WF := by
+  induction s with
+  | nil =>
+    intro st ts _ h
+    cases st <;> simp [scan] at h
+    subst h; simp [St.consumed, unparse]
+  | cons a as ih =>
+    intro st ts hg h
+    cases st with
+    | text =>
+      simp only [scan] at h
+      by_cases ha : a = '%'
+      · simp only [ha, if_true] at h
+        have := ih .pct ts trivial h
+        subst ha
+        simpa [St.consumed] using this
+      · simp only [ha, if_false] at h
+        cases hs : scan .text as with
+        | none => simp [hs] at h
+        | some ts' =>
+          simp only [hs, Option.map_some, Option.some.injEq] at h
+          subst h
+          obtain ⟨h1, h2⟩ := ih .text ts' trivial hs
+          simp only [St.consumed, List.nil_append] at h1
+          refine ⟨by simpa [St.consumed, unparse, unparseTok, List.flatMap_cons] using h1, ?_⟩
+          intro t ht
+          simp only [List.mem_cons] at ht
+          rcases ht with rfl | ht
+          · exact ha
+          · exact h2 t ht
+    | pct =>
+      simp only [scan] at h
+      by_cases ha : a = '%'
+      · simp only [ha, if_true] at h
+        cases hs : scan .text as with
+        | none => simp [hs] at h
+        | some ts' =>
+          simp only [hs, Option.map_some, Option.some.injEq] at h
+          subst h; subst ha
+          obtain ⟨h1, h2⟩ := ih .text ts' trivial hs
+          simp only [St.consumed, List.nil_append] at h1
+          refine ⟨by simpa [St.consumed, unparse, unparseTok, List.flatMap_cons] using h1, ?_⟩
+          intro t ht
+          simp only [List.mem_cons] at ht
+          rcases ht with rfl | ht
+          · trivial
+          · exact h2 t ht
+      · simp only [ha, if_false] at h
+        by_cases hb : a = '('
+        · simp only [hb, if_true] at h
+          have := ih (.key []) ts (by simp [St.good]) h
+          subst hb
+          simpa [St.consumed] using this
+        · simp [hb] at h
+    | key acc =>
+      simp only [St.good] at hg
+      simp only [scan] at h
+      by_cases ha : a = ')'
+      · simp only [ha, if_true] at h
+        have := ih (.close acc.reverse) ts (by simpa [St.good] using hg) h
+        subst ha
+        simpa [St.consumed, List.append_assoc] using this
+      · simp only [ha, if_false] at h
+        have hg' : (St.key (a :: acc)).good := by
+          simp only [St.good, List.mem_cons, not_or]
+          exact ⟨fun e => ha e.symm, hg⟩
+        have := ih (.key (a :: acc)) ts hg' h
+        simpa [St.consumed, List.append_assoc] using this
+    | close n =>
+      simp only [St.good] at hg
+      simp only [scan] at h
+      by_cases ha : a = 's'
+      · simp only [ha, if_true] at h
+        cases hs : scan .text as with
+        | none => simp [hs] at h
+        | some ts' =>
+          simp only [hs, Option.map_some, Option.some.injEq] at h
+          subst h; subst ha
+          obtain ⟨h1, h2⟩ := ih .text ts' trivial hs
+          simp only [St.consumed, List.nil_append] at h1
+          refine ⟨by simpa [St.consumed, unparse, unparseTok, List.flatMap_cons, List.append_assoc] using h1, ?_⟩
+          intro t ht
+          simp only [List.mem_cons] at ht
+          rcases ht with rfl | ht
+          · exact hg
+          · exact h2 t ht
+      · simp [ha] at h
+
+theorem parse_sound (s : Str) (ts : List Tok) (h : parse s = some ts) :
+    s = unparse ts ∧ ∀ t ∈ ts, t.WF := by
+  have := scan_sound s .text ts trivial h
+  simpa [St.consumed] using this
+
 end RB.Cmdline
